@@ -351,7 +351,7 @@ def _max_fanout(prog) -> int:
     for o in prog["ops"]:
         if o["out"] in alias and o["op"] == "dropout":
             continue
-        for x in set(o["in"]):
+        for x in o["in"]:  # every occurrence is one gradient contribution (x + x sends two)
             cnt[root(x)] = cnt.get(root(x), 0) + 1
     for x in prog["outputs"]:
         cnt[root(x)] = cnt.get(root(x), 0) + 1
